@@ -65,3 +65,237 @@ fn twin_parse_stack() {
     kani::cover!(k == 0 && n == 3, "empty reduction on a deep stack");
     kani::cover!(k == 3, "pop three");
 }
+
+// ---------------------------------------------------------------------------------------------------------------
+// LRParser::next_token: token selection (C06 "then (if enabled) the longest match; then grammar order (always for
+// LR)") and the synthetic STOP of partial parsing (C02).  The lexer and the parser definition below are harness
+// INPUTS (they stand for "any lexer result" / "any expected set"), the code under test is the real next_token.
+use crate::lexer::{Lexer, Token};
+use crate::lr::builder::TreeBuilder;
+
+pub(crate) struct SymLexer {
+    pub n: usize,
+    pub kinds: [u8; 3],
+    pub lens: [usize; 3],
+}
+impl<'i> Lexer<'i, Ctx<'i>, St, Tk> for SymLexer {
+    type Input = [u8];
+    fn next_tokens(&self, context: &mut Ctx<'i>, input: &'i [u8], _expected: Vec<(Tk, bool)>) -> Box<dyn Iterator<Item = Token<'i, [u8], Tk>> + 'i> {
+        let p = context.position();
+        let mut v: Vec<Token<'i, [u8], Tk>> = Vec::new();
+        let mut i = 0;
+        while i < self.n {
+            let value = &input[p.pos..p.pos + self.lens[i]];
+            v.push(Token { kind: Tk(self.kinds[i]), value, span: value.span_from(p) });
+            i += 1;
+        }
+        std::mem::forget(_expected);
+        Box::new(v.into_iter())
+    }
+}
+pub(crate) struct Def<const LM: bool> {
+    pub stop_expected: bool,
+}
+impl<const LM: bool> ParserDefinition<St, u8, Tk, u8> for Def<LM> {
+    fn actions(&self, _state: St, _token: Tk) -> Vec<Action<St, u8>> {
+        vec![]
+    }
+    fn goto(&self, state: St, _nonterm: u8) -> St {
+        state
+    }
+    fn expected_token_kinds(&self, _state: St) -> Vec<(Tk, bool)> {
+        if self.stop_expected { vec![(Tk(1), false), (Tk(0), false)] } else { vec![(Tk(1), false), (Tk(2), false)] }
+    }
+    fn longest_match() -> bool {
+        LM
+    }
+    fn grammar_order() -> bool {
+        true
+    }
+}
+
+fn next_token_harness<const LM: bool>() {
+    let input: [u8; 4] = kani::any();
+    let lexer = SymLexer { n: kani::any(), kinds: kani::any(), lens: kani::any() };
+    kani::assume(lexer.n <= 3);
+    let start: usize = kani::any();
+    kani::assume(start <= 4);
+    kani::assume(lexer.lens[0] <= 4 - start && lexer.lens[1] <= 4 - start && lexer.lens[2] <= 4 - start);
+    let def = Def::<LM> { stop_expected: kani::any() };
+    let partial: bool = kani::any();
+    let lexer_n = lexer.n;
+    let (kinds, lens) = (lexer.kinds, lexer.lens);
+    let parser: LRParser<Ctx, St, u8, Tk, u8, Def<LM>, SymLexer, TreeBuilder<[u8], u8, Tk>, [u8]> =
+        LRParser::new(&def, St(0), partial, false, lexer, TreeBuilder::new());
+    let mut ctx: Ctx = LRContext::new(Position { pos: start, line_col: None });
+    let last = any_span();
+    ctx.set_span(last);
+    let r = parser.next_token(&input[..], &mut ctx, &None);
+    if lexer_n > 0 {
+        // which token must be chosen
+        let mut best = 0;
+        if LM {
+            let mut i = 1;
+            while i < lexer_n {
+                if lens[i] > lens[best] { best = i; } // longest; the FIRST among equally long ones (grammar order)
+                i += 1;
+            }
+        }
+        match &r {
+            Ok(t) => {
+                assert!(t.kind == Tk(kinds[best]), "C06: wrong token selected");
+                assert!(t.value.len() == lens[best]);
+                assert!(t.span.start.pos == start && t.span.end.pos == start + lens[best]);
+            }
+            Err(_) => panic!("C06: a token was available but next_token failed"),
+        }
+    } else if partial && def.stop_expected {
+        // C02: synthetic STOP only when nothing matches, partial parsing is on and STOP is expected here
+        match &r {
+            Ok(t) => {
+                assert!(t.kind == Tk(0) && t.value.len() == 0 && t.span == last);
+            }
+            Err(_) => panic!("C02: partial parse must yield STOP here"),
+        }
+    } else {
+        assert!(r.is_err(), "C12: no token and no STOP allowed: must be an error");
+    }
+    kani::cover!(lexer_n == 3 && lens[0] < lens[1] && lens[1] == lens[2], "tie between the 2nd and 3rd candidate");
+    kani::cover!(lexer_n == 0 && partial && def.stop_expected, "synthetic STOP");
+    kani::cover!(lexer_n == 0 && !partial, "error path");
+    std::mem::forget(r);
+    std::mem::forget(parser);
+}
+/// Stand-in for error::error_expected WITHOUT its message formatting (format!/Debug of the expected kinds dominates
+/// CBMC's cost); position and shape of the error are kept.  error_expected itself is checked by `error_expected_shape`.
+fn stub_error_expected<'i, I, S, TK, C>(_input: &'i I, _file_name: &str, context: &C, _expected: &[TK]) -> crate::Error
+where
+    C: Context<'i, I, S, TK>,
+    I: Input + ?Sized,
+    S: State,
+    TK: Debug,
+{
+    crate::Error::ParseError(Box::new(crate::ParseError { message: String::new(), src: None, file: None, span: Some(context.position().into()) }))
+}
+
+/// log!() consults RUSTEMO_TRACE through std::env::var_os in debug builds (a foreign call): stubbed, tracing off.
+fn stub_var_os<K: AsRef<std::ffi::OsStr>>(_key: K) -> Option<std::ffi::OsString> {
+    None
+}
+
+/// bounded(<= 3 candidate tokens of length <= 4 at any position of a 4-byte input)
+#[kani::proof]
+#[kani::unwind(6)]
+#[kani::stub(crate::error::error_expected, stub_error_expected)]
+#[kani::stub(std::env::var_os, stub_var_os)]
+fn next_token_longest_match() {
+    next_token_harness::<true>()
+}
+#[kani::proof]
+#[kani::unwind(6)]
+#[kani::stub(crate::error::error_expected, stub_error_expected)]
+#[kani::stub(std::env::var_os, stub_var_os)]
+fn next_token_first_match() {
+    next_token_harness::<false>()
+}
+
+// ---------------------------------------------------------------------------------------------------------------
+// Group D: the real LR driver end to end on a hand-written table (harness INPUT, not a model):
+//   G1:  S: 'a' S | EMPTY      (productions: 0 = S: a S, 1 = S: <empty>; nonterminal 0 = S)
+// with a well-behaved byte lexer (tries exactly the expected kinds at the current byte).
+pub(crate) struct ByteLexer;
+impl<'i> Lexer<'i, Ctx<'i>, St, Tk> for ByteLexer {
+    type Input = [u8];
+    fn next_tokens(&self, context: &mut Ctx<'i>, input: &'i [u8], expected: Vec<(Tk, bool)>) -> Box<dyn Iterator<Item = Token<'i, [u8], Tk>> + 'i> {
+        let p = context.position();
+        let mut found: Option<Token<'i, [u8], Tk>> = None;
+        let mut i = 0;
+        while i < expected.len() {
+            let k = expected[i].0;
+            if found.is_none() {
+                if k == Tk(0) {
+                    if p.pos == input.len() {
+                        let v = &input[p.pos..p.pos];
+                        found = Some(Token { kind: k, value: v, span: v.span_from(p) });
+                    }
+                } else if p.pos < input.len() && input[p.pos] == b'a' + (k.0 - 1) {
+                    let v = &input[p.pos..p.pos + 1];
+                    found = Some(Token { kind: k, value: v, span: v.span_from(p) });
+                }
+            }
+            i += 1;
+        }
+        std::mem::forget(expected);
+        Box::new(found.into_iter())
+    }
+}
+pub(crate) struct G1;
+impl ParserDefinition<St, u8, Tk, u8> for G1 {
+    fn actions(&self, state: St, token: Tk) -> Vec<Action<St, u8>> {
+        match (state.0, token.0) {
+            (0, 1) | (1, 1) => vec![Action::Shift(St(1))],
+            (0, 0) | (1, 0) => vec![Action::Reduce(1, 0)],
+            (2, 0) => vec![Action::Accept],
+            (3, 0) => vec![Action::Reduce(0, 2)],
+            _ => vec![],
+        }
+    }
+    fn goto(&self, state: St, _nonterm: u8) -> St {
+        match state.0 { 0 => St(2), _ => St(3) }
+    }
+    fn expected_token_kinds(&self, state: St) -> Vec<(Tk, bool)> {
+        match state.0 { 0 | 1 => vec![(Tk(1), true), (Tk(0), false)], _ => vec![(Tk(0), false)] }
+    }
+    fn longest_match() -> bool { true }
+    fn grammar_order() -> bool { true }
+}
+fn leaves(n: &crate::lr::builder::TreeNode<'_, [u8], u8, Tk>) -> usize {
+    match n {
+        crate::lr::builder::TreeNode::TermNode { .. } => 1,
+        crate::lr::builder::TreeNode::NonTermNode { prod, children, .. } => {
+            // S: a S  has two children (a leaf, an S); S: <empty> has none
+            if *prod == 0 { assert!(children.len() == 2); 1 + leaves(&children[1]) } else { assert!(children.len() == 0); 0 }
+        }
+    }
+}
+
+/// bounded(input <= 2 bytes over all byte values): Ok <=> every byte is 'a' (C01); the tree is the derivation of the
+/// input (C02); a non-member is an Err at the first offending byte (C12); no panic (C15).
+#[kani::proof]
+#[kani::unwind(8)]
+#[kani::stub(crate::error::error_expected, stub_error_expected)]
+#[kani::stub(std::env::var_os, stub_var_os)]
+fn driver_g1() {
+    const N: usize = 2;
+    let buf: [u8; N] = kani::any();
+    let len: usize = kani::any();
+    kani::assume(len <= N);
+    let input = &buf[..len];
+    let def = G1;
+    let parser: LRParser<Ctx, St, u8, Tk, u8, G1, ByteLexer, TreeBuilder<[u8], u8, Tk>, [u8]> =
+        LRParser::new(&def, St(0), false, false, ByteLexer, TreeBuilder::new());
+    let r = parser.parse(input);
+    let mut first_bad = len;
+    let mut i = 0;
+    while i < len {
+        if first_bad == len && input[i] != b'a' { first_bad = i; }
+        i += 1;
+    }
+    match &r {
+        Ok(tree) => {
+            assert!(first_bad == len, "C01: a non-sentence was accepted");
+            assert!(leaves(tree) == len, "C02: the leaves are not the tokens of the input");
+        }
+        Err(e) => {
+            assert!(first_bad < len, "C01/C12: a sentence was rejected");
+            match e {
+                crate::Error::ParseError(pe) => assert!(pe.span.unwrap().start.pos == first_bad, "C12: error not at the first offending token"),
+                _ => panic!("unexpected error kind"),
+            }
+        }
+    }
+    kani::cover!(len == 2 && first_bad == len, "aa accepted");
+    kani::cover!(len == 2 && first_bad == 1, "rejected at the second byte");
+    std::mem::forget(r);
+    std::mem::forget(parser);
+}
